@@ -277,6 +277,24 @@ class Env:
 
 
 
+def has_uninit(t, limit=4000):
+    stack = [t]
+    seen = set()
+    while stack and len(seen) < limit:
+        x = stack.pop()
+        if isinstance(x, int):
+            continue
+        i = x.get_id()
+        if i in seen:
+            continue
+        seen.add(i)
+        if z3.is_const(x) and x.decl().kind() == z3.Z3_OP_UNINTERPRETED:
+            if x.decl().name().startswith(('uninit!', 'undef!')):
+                return True
+        stack.extend(x.children())
+    return False
+
+
 def ite_leaves(t, limit=64):
     """Constant leaves of an if-then-else tree (None if some leaf is not a constant): a cheap
     over-approximation of the values a merged term can take."""
@@ -1376,6 +1394,10 @@ class Engine:
         try:
             vals = self.values_of(st, v)
         except Unsupported as e:
+            if has_uninit(v):
+                # an address computed from memory that was never initialised on this path: only reachable through
+                # a combination of reads that the global consistency check has to rule out
+                raise EngineError('uninit-pointer', 'address depends on uninitialised memory at %s' % self.loc(ins))
             raise Unsupported('%s at %s' % (e, self.loc(ins)))
         if not vals:
             st.status = 'infeasible'
@@ -1728,11 +1750,15 @@ class Engine:
         if own is not None:
             if is_conc(own):
                 opts.add(own)
+            elif has_uninit(own, 200):
+                pass      # never initialised by this thread: only the other threads' values can be read
             else:
                 lv = ite_leaves(own)
                 if lv is None:
                     return
                 opts |= lv
+        if not opts:
+            return
         if len(opts) == 1:
             st.pc.append(s == next(iter(opts)))
         else:
